@@ -12,6 +12,8 @@ import (
 	"fmt"
 	"strings"
 	"testing"
+	"time"
+	_ "unsafe" // go:linkname
 
 	"github.com/eclipse/paho.mqtt.golang/packets"
 	"pgregory.net/rapid"
@@ -143,6 +145,194 @@ func TestVerifC09MqttLimiter(t *testing.T) {
 		}
 		vf.Case(rejects > 0 && packetsIn > 0, "mqttproxy|"+pol+"|"+hist.String(), func() interface{} {
 			return map[string]interface{}{"test": "mqttproxy-limiter", "policy": pol, "admitted": packetsIn, "rejected": rejects, "history(wire bytes:admitted)": hist.String()}
+		})
+	})
+}
+
+// ---------------------------------------------------------------------------------------------
+// the same wiring under a clock the harness owns
+
+// The limiter library keeps its clock in an unexported package variable of
+// pkg/util/ratelimiter. It is reached here by linkname (the driver links with -checklinkname=0),
+// so that timePeriod values of a few seconds and arrivals spread over many virtual seconds can be
+// explored without sleeping.
+//
+//go:linkname vfC09UtilNow github.com/megaease/easegress/pkg/util/ratelimiter.nowFunc
+var vfC09UtilNow func() time.Time
+
+var vfC09MqttEpoch = time.Date(2023, 4, 5, 6, 7, 8, 0, time.UTC)
+
+// vfC09Dim books the permits of one limit dimension per refresh period: an admission of n permits
+// takes the free permits of its period first and the rest from the following periods.
+type vfC09Dim struct {
+	L   int
+	rel map[int64]int
+}
+
+func (g *vfC09Dim) reserve(j int64, n int) {
+	for n > 0 {
+		if free := g.L - g.rel[j]; free > 0 {
+			if n < free {
+				free = n
+			}
+			g.rel[j] += free
+			n -= free
+		}
+		j++
+	}
+}
+
+// TestVerifC09MqttLimiterClock: newLimiter / acquirePermission through checkPublishLimit and
+// checkConnectPermission with timePeriod 1..3600 s and arrivals spread over virtual time: in every
+// period [creation+j*timePeriod, creation+(j+1)*timePeriod) at most requestRate packets are
+// admitted, a packet is admitted only while fewer than bytesRate bytes were admitted in its period,
+// and a packet is rejected only when one of the two budgets of its period is used up.
+func TestVerifC09MqttLimiterClock(t *testing.T) {
+	vf := vfBegin(t, "C09")
+	vf.maxSample = 2
+	defer vf.End()
+	if vfC09UtilNow == nil {
+		t.Fatalf("VF-INCONCLUSIVE the limiter clock hook (pkg/util/ratelimiter.nowFunc) is not reachable")
+	}
+	rapid.Check(t, func(rt *rapid.T) {
+		site := rapid.SampledFrom([]string{"publish", "connect"}).Draw(rt, "site")
+		reqRate := rapid.SampledFrom([]int{0, 1, 2, 3, 5}).Draw(rt, "requestRate")
+		byteRate := rapid.SampledFrom([]int{0, 20, 64, 100, 300, 1000}).Draw(rt, "bytesRate")
+		if rapid.IntRange(0, 1).Draw(rt, "both") == 0 {
+			// both budgets (MultiRateLimiter) in at least half of the cases
+			if reqRate == 0 {
+				reqRate = 2
+			}
+			if byteRate == 0 {
+				byteRate = 300
+			}
+		}
+		tp := rapid.SampledFrom([]int{0, 1, 2, 3, 3, 10, 10, 3600}).Draw(rt, "timePeriod")
+		P := time.Duration(tp) * time.Second
+		if tp == 0 {
+			P = time.Second // documented default
+		}
+		var off time.Duration // virtual time since the limiter was created
+		old := vfC09UtilNow
+		vfC09UtilNow = func() time.Time { return vfC09MqttEpoch.Add(off) }
+		defer func() { vfC09UtilNow = old }()
+
+		spec := &RateLimit{RequestRate: reqRate, BytesRate: byteRate, TimePeriod: tp}
+		var check func(p packets.ControlPacket) bool
+		if site == "publish" {
+			c := &Client{publishLimit: newLimiter(spec)}
+			check = func(p packets.ControlPacket) bool { return c.checkPublishLimit(p.(*packets.PublishPacket)) }
+		} else {
+			b := &Broker{connectionLimiter: newLimiter(spec), spec: &Spec{}}
+			check = func(p packets.ControlPacket) bool { return b.checkConnectPermission(p.(*packets.ConnectPacket)) }
+		}
+		mode := "unlimited"
+		switch {
+		case reqRate > 0 && byteRate > 0:
+			mode = "request+bytes"
+		case reqRate > 0:
+			mode = "request"
+		case byteRate > 0:
+			mode = "bytes"
+		}
+		pol := fmt.Sprintf("site=%s mode=%s requestRate=%d bytesRate=%d timePeriod=%d", site, mode, reqRate, byteRate, tp)
+
+		reqL := &vfC09Dim{L: reqRate, rel: map[int64]int{}}
+		byteL := &vfC09Dim{L: byteRate, rel: map[int64]int{}} // in bytes as the broker accounts them
+		packetsIn, wireIn := map[int64]int{}, map[int64]int{}
+		usedUpAt := map[int64]time.Duration{} // instant at which a budget of period j was first found used up
+		n := rapid.IntRange(1, 40).Draw(rt, "packets")
+		var hist strings.Builder
+		rejects, admits, lateSamePeriod, boundary := 0, 0, 0, false
+		for i := 0; i < n; i++ {
+			gk := rapid.SampledFrom([]string{"0", "0", "0", "0", "100ms", "500ms", "1s", "1s", "1.5s", "P-1ns", "P", "->boundary", "->boundary-1ns", "3P"}).Draw(rt, "gap")
+			toB := P - off%P
+			switch gk {
+			case "100ms":
+				off += 100 * time.Millisecond
+			case "500ms":
+				off += 500 * time.Millisecond
+			case "1s":
+				off += time.Second
+			case "1.5s":
+				off += 1500 * time.Millisecond
+			case "P-1ns":
+				off += P - 1
+			case "P":
+				off += P
+			case "->boundary":
+				off += toB
+			case "->boundary-1ns":
+				off += toB - 1
+			case "3P":
+				off += 3 * P
+			}
+			if m := off % P; off >= P-1 && (m == 0 || m == P-1) {
+				boundary = true
+			}
+			j := int64(off / P)
+			topicLen := rapid.SampledFrom([]int{1, 3, 10, 40}).Draw(rt, "topicLen")
+			payloadLen := rapid.SampledFrom([]int{0, 1, 10, 50, 120, 200, 400}).Draw(rt, "payloadLen")
+			pkt, wire, remaining := vfC09Packet(rt, site == "connect", topicLen, payloadLen)
+			accounted := remaining + 8
+			if wire > accounted {
+				rt.Fatalf("VF-INCONCLUSIVE harness assumption broken: wire size %d > remaining length %d + 8", wire, remaining)
+			}
+			reqFull := reqRate > 0 && reqL.rel[j] >= reqRate
+			byteFull := byteRate > 0 && byteL.rel[j] >= byteRate
+			if reqFull || byteFull {
+				if at, seen := usedUpAt[j]; !seen {
+					usedUpAt[j] = off
+				} else if off-at >= time.Second {
+					lateSamePeriod++
+				}
+			}
+			ok := check(pkt)
+			fmt.Fprintf(&hist, "+%v:%dB:%v ", off, wire, ok)
+			if ok {
+				admits++
+				if reqRate > 0 && packetsIn[j] >= reqRate {
+					if vf.Violation(rt, "mqtt-clock more-than-requestRate-packets-admitted-in-a-period site="+site+" mode="+mode, "packet #%d admitted at +%v as number %d of period %d\n%s\nhistory (offset:wire bytes:admitted): %s", i+1, off, packetsIn[j]+1, j, pol, hist.String()) {
+						return
+					}
+				}
+				if byteRate > 0 && wireIn[j] >= byteRate {
+					if vf.Violation(rt, "mqtt-clock admitted-bytes-exceed-bytesRate-by-a-whole-packet site="+site+" mode="+mode, "packet #%d (%d bytes) admitted at +%v although period %d had admitted %d >= bytesRate bytes already\n%s\nhistory (offset:wire bytes:admitted): %s", i+1, wire, off, j, wireIn[j], pol, hist.String()) {
+						return
+					}
+				}
+				packetsIn[j]++
+				wireIn[j] += wire
+				if reqRate > 0 {
+					reqL.reserve(j, 1)
+				}
+				if byteRate > 0 {
+					byteL.reserve(j, accounted)
+				}
+				continue
+			}
+			rejects++
+			if !reqFull && !byteFull {
+				if vf.Violation(rt, "mqtt-clock unjustified-rejection site="+site+" mode="+mode, "packet #%d rejected at +%v although period %d has %d/%d packets and %d/%d bytes (as accounted, incl. carry-over) taken\n%s\nhistory (offset:wire bytes:admitted): %s", i+1, off, j, reqL.rel[j], reqRate, byteL.rel[j], byteRate, pol, hist.String()) {
+					return
+				}
+			}
+		}
+		vf.Class("mqttproxy-clock mode="+mode, fmt.Sprintf("mqttproxy-clock timePeriod=%d", tp))
+		if rejects > 0 {
+			vf.Class("mqttproxy-clock case-has-rejection")
+		}
+		if boundary {
+			vf.Class("mqttproxy-clock case-has-boundary-arrival")
+		}
+		if lateSamePeriod > 0 {
+			vf.Class("mqttproxy-clock case has arrival >=1s after a budget of the same period was used up")
+			if mode == "request+bytes" && tp > 1 {
+				vf.Class("mqttproxy-clock … with both rates and timePeriod > 1")
+			}
+		}
+		vf.Case(rejects > 0 && admits > 0 && (lateSamePeriod > 0 || boundary), "mqttproxy-clock|"+pol+"|"+hist.String(), func() interface{} {
+			return map[string]interface{}{"test": "mqttproxy-limiter-clock", "policy": pol, "admitted": admits, "rejected": rejects, "history(offset:wire bytes:admitted)": hist.String()}
 		})
 	})
 }
